@@ -66,6 +66,22 @@ def main():
             checks[prop] = {"exit": code, "lines": [l[:300] for l in viol[:6]]}
         result["checks"] = checks
         result["caught_by"] = [p for p, c in checks.items() if c["exit"] == 1]
+        # keep the minimised scenario that caught the change (own property
+        # first) in the regression corpus replayed by every later check
+        own = name.split('-')[0]
+        os.makedirs(os.path.join(ROOT, 'corpus'), exist_ok=True)
+        kept = 0
+        for prop in [own] + [p for p in result["caught_by"] if p != own]:
+            if kept >= 2 or prop not in checks or checks[prop]["exit"] != 1:
+                continue
+            for line in checks[prop]["lines"]:
+                if line.startswith('VIOLATION') and 'replay=' in line:
+                    path = line.split('replay=')[1].strip()
+                    if os.path.exists(path):
+                        shutil.copy(path, os.path.join(
+                            ROOT, 'corpus', '{}-{}.json'.format(name, prop)))
+                        kept += 1
+                    break
     finally:
         if '--keep' not in flags:
             sh('git -C /repo worktree remove --force ' + wt)
